@@ -5,6 +5,9 @@
 -/
 import EvalFilter.Model.Lexer
 
+set_option linter.unusedSimpArgs false
+set_option linter.unusedVariables false
+
 namespace EvalFilter.Lexer
 
 theorem skipWs_length_le (r : List Char) : (skipWs r).length ≤ r.length := by
@@ -185,5 +188,174 @@ theorem lexAll_length_le (s : LexSt) : (lexAll s).length ≤ s.rest.length + 1 :
     have := nextToken_progress s (by simpa using hne)
     rw [hnt] at this
     exact absurd this hlt
+
+
+/-! ### the shape of the token stream -/
+
+theorem lookupIdentifier_ne_eof (s : Str) : lookupIdentifier s ≠ .EOF := by
+  unfold lookupIdentifier
+  cases h : keywords.lookup s with
+  | none => simp
+  | some t =>
+    have hm : (s, t) ∈ keywords := by
+      have := List.lookup_eq_some_iff.mp h
+      obtain ⟨l1, l2, hk, _⟩ := this
+      rw [hk]; simp
+    simp only [Option.getD_some]
+    simp only [keywords, List.mem_cons, Prod.mk.injEq, List.not_mem_nil, or_false] at hm
+    rcases hm with ⟨_, rfl⟩ | ⟨_, rfl⟩ | ⟨_, rfl⟩ | ⟨_, rfl⟩ | ⟨_, rfl⟩ | ⟨_, rfl⟩ | ⟨_, rfl⟩ | ⟨_, rfl⟩ | ⟨_, rfl⟩ | ⟨_, rfl⟩ |
+      ⟨_, rfl⟩ | ⟨_, rfl⟩ | ⟨_, rfl⟩ | ⟨_, rfl⟩ <;> simp
+
+theorem two_ty (cs : List Char) (second : Char) (ty2 : TokType) (lit2 : String) (o : Token) (h2 : ty2 ≠ .EOF) (ho : o.ty ≠ .EOF) :
+    (two cs second ty2 lit2 o).1.ty ≠ .EOF := by
+  unfold two
+  split
+  · split <;> simp [tok, h2, ho]
+  · exact ho
+
+theorem lexWord_ty (prev : TokType) (c : Char) (cs : List Char) : (lexWord prev c cs).1.ty ≠ .EOF := by
+  unfold lexWord
+  repeat' split
+  all_goals first
+    | (simp; done)
+    | (simp [lookupIdentifier_ne_eof]; done)
+
+theorem lexC_ty (prev : TokType) (c : Char) (cs : List Char) : (lexC prev c cs).1.ty ≠ .EOF := by
+  unfold lexC
+  repeat' split
+  all_goals first
+    | (simp [one]; done)
+    | (apply two_ty <;> simp; done)
+    | (simp [tok]; done)
+    | exact lexWord_ty _ _ _
+
+theorem lexB_ty (prev : TokType) (c : Char) (cs : List Char) : (lexB prev c cs).1.ty ≠ .EOF := by
+  unfold lexB
+  repeat' split
+  all_goals first
+    | (simp [one]; done)
+    | (apply two_ty <;> simp; done)
+    | (simp [tok]; done)
+    | exact lexC_ty _ _ _
+
+theorem lexOne_ty (prev : TokType) (c : Char) (cs : List Char) : (lexOne prev c cs).1.ty ≠ .EOF := by
+  unfold lexOne
+  repeat' split
+  all_goals first
+    | (simp [one]; done)
+    | (apply two_ty <;> simp; done)
+    | (simp [tok]; done)
+    | exact lexB_ty _ _ _
+
+/-- `NextToken` yields the end-of-input token only when nothing but blanks and comments is left -/
+theorem nextToken_eof (s : LexSt) (h : (nextToken s).1.ty = .EOF) : (nextToken s).2.rest = [] := by
+  unfold nextToken at h ⊢
+  split
+  · rfl
+  · rename_i c cs heq
+    simp only [heq] at h
+    exact absurd h (lexOne_ty _ _ _)
+
+/-- every token of the stream but the last is a real token: the end-of-input token comes last, only -/
+theorem lexAll_init_ne_eof (s : LexSt) : ∀ t ∈ (lexAll s).dropLast, t.ty ≠ .EOF := by
+  fun_induction lexAll s
+  · simp
+  · simp
+  · rename_i s hne t s' hnt hlt hcond ih
+    intro u hu
+    have hne' : lexAll s' ≠ [] := by
+      unfold lexAll
+      repeat' split
+      all_goals simp
+    rw [List.dropLast_cons_of_ne_nil hne'] at hu
+    rcases List.mem_cons.mp hu with rfl | hu
+    · intro hty
+      have := nextToken_eof s (by rw [hnt]; exact hty)
+      rw [hnt] at this
+      simp only at this
+      simp [hty, this] at hcond
+    · exact ih u hu
+  · rename_i s hne t s' hnt hlt
+    have := nextToken_progress s (by simpa using hne)
+    rw [hnt] at this
+    exact absurd this hlt
+
+/-- the last token of the stream is the end-of-input token -/
+theorem lexAll_last_eof (s : LexSt) : ∃ ts e, lexAll s = ts ++ [e] ∧ e.ty = .EOF := by
+  fun_induction lexAll s
+  · exact ⟨[], Token.eof, rfl, rfl⟩
+  · rename_i s hne t s' hnt hlt hcond
+    exact ⟨[], t, rfl, by simp only [Bool.and_eq_true, beq_iff_eq] at hcond; exact hcond.1⟩
+  · rename_i s hne t s' hnt hlt hcond ih
+    obtain ⟨ts, e, h1, h2⟩ := ih
+    exact ⟨t :: ts, e, by rw [h1]; rfl, h2⟩
+  · rename_i s hne t s' hnt hlt
+    have := nextToken_progress s (by simpa using hne)
+    rw [hnt] at this
+    exact absurd this hlt
+
+/-- so every ILLEGAL or type-less token of the stream comes before the end-of-input token -/
+theorem lex_bad_token_before_eof (input : List Char) (t : Token) (ht : t ∈ lex input)
+    (hbad : t.ty = .ILLEGAL ∨ t.ty = .NONE) : t ∈ (lex input).takeWhile (fun t => t.ty != .EOF) := by
+  unfold lex at ht ⊢
+  obtain ⟨ts, e, h1, h2⟩ := lexAll_last_eof ⟨input, .NONE⟩
+  have hinit := lexAll_init_ne_eof ⟨input, .NONE⟩
+  rw [h1] at ht hinit ⊢
+  simp only [List.dropLast_concat] at hinit
+  have hmem : t ∈ ts := by
+    rcases List.mem_append.mp ht with h | h
+    · exact h
+    · simp at h; subst h; rcases hbad with hb | hb <;> simp [hb] at h2
+  have htw : (ts ++ [e]).takeWhile (fun t => t.ty != .EOF) = ts := by
+    rw [List.takeWhile_append_of_pos (by intro x hx; simpa using hinit x hx)]
+    simp [h2]
+  rw [htw]; exact hmem
+
+
+theorem nextToken_mem (s : LexSt) (h : s.rest ≠ []) : (nextToken s).1 ∈ lexAll s := by
+  rw [lexAll]
+  have hp := nextToken_progress s h
+  have he : s.rest.isEmpty = false := by simpa using h
+  simp only [he, Bool.false_eq_true, ↓reduceIte, hp, ↓reduceDIte]
+  split <;> simp
+
+theorem nextToken_eof_tok (s : LexSt) (h : (nextToken s).1.ty = .EOF) : (nextToken s).1 = Token.eof := by
+  unfold nextToken at h ⊢
+  split
+  · rfl
+  · rename_i c cs heq
+    simp only [heq] at h
+    exact absurd h (lexOne_ty _ _ _)
+
+theorem lexAll_step_subset (s : LexSt) (h : s.rest ≠ []) : ∀ t ∈ lexAll (nextToken s).2, t ∈ lexAll s := by
+  intro t ht
+  rw [lexAll]
+  have hp := nextToken_progress s h
+  have he : s.rest.isEmpty = false := by simpa using h
+  simp only [he, Bool.false_eq_true, ↓reduceIte, hp, ↓reduceDIte]
+  split
+  · rename_i hc
+    simp only [Bool.and_eq_true, beq_iff_eq, List.isEmpty_iff] at hc
+    have h1 : lexAll (nextToken s).2 = [Token.eof] := by rw [lexAll]; simp [hc.2]
+    rw [h1] at ht
+    simp only [List.mem_singleton] at ht ⊢
+    rw [ht, nextToken_eof_tok s hc.1]
+  · exact List.mem_cons_of_mem _ ht
+
+/-- the states the lexer passes through while reading `input` -/
+inductive Reach (input : List Char) : LexSt → Prop
+  | start : Reach input ⟨input, .NONE⟩
+  | step (s : LexSt) : Reach input s → s.rest ≠ [] → Reach input (nextToken s).2
+
+theorem reach_subset (input : List Char) (s : LexSt) (h : Reach input s) : ∀ t ∈ lexAll s, t ∈ lex input := by
+  induction h with
+  | start => intro t ht; exact ht
+  | step s _ hne ih => intro t ht; exact ih t (lexAll_step_subset s hne t ht)
+
+/-- whatever token the lexer produces anywhere in the input is in the token stream -/
+theorem reach_token_mem (input : List Char) (s : LexSt) (h : Reach input s) (hne : s.rest ≠ []) :
+    (nextToken s).1 ∈ lex input :=
+  reach_subset input s h _ (nextToken_mem s hne)
+
 
 end EvalFilter.Lexer
